@@ -438,6 +438,78 @@ def check_json(ctx):
            'members')
 
 
+def check_every(ctx):
+    """Every registered default of every section yields one entry."""
+    prog = ctx.prog
+    sec = prog.func(GEN + '._sort_and_format_by_section')
+    fmt = prog.func(GEN + '._format_rule_default_yaml')
+    fj = prog.func(GEN + '._format_rule_default_json')
+    t = Table(prog, sec)
+    W = ctx.where(sec.module, sec.node)
+    bad = None
+    n = 0
+    for p in t.paths:
+        loops = [c for c in p.conds if c.kind == 'loop']
+        if len(loops) < 2 or not all(c.pol for c in loops):
+            continue
+        fmtc = None
+        for c in p.conds:
+            e = c.expr
+            if c.kind == 'test' and c.pol and isinstance(
+                    e, ast.Compare) and isinstance(e.ops[0], ast.Eq):
+                vals = [x.value for x in (e.left, e.comparators[0])
+                        if isinstance(x, ast.Constant)]
+                names = [U(x) for x in (e.left, e.comparators[0])
+                         if not isinstance(x, ast.Constant)]
+                if vals and names == ['output_format']:
+                    fmtc = vals[0]
+        if fmtc not in ('yaml', 'json'):
+            continue
+        n += 1
+        ys = [e for e in p.events if e.kind == 'yield']
+        want = fmt if fmtc == 'yaml' else fj
+        ok = len(ys) == 1
+        if ok:
+            v = t.expand(ys[0].node)
+            ok = isinstance(v, ast.Call) and prog.callee_of(sec, v) is want \
+                and v.args and isinstance(v.args[0], ast.Name) and \
+                v.args[0].id.startswith('SYM_e')
+        if not ok and bad is None:
+            bad = (p, fmtc)
+    ctx.ob('C17.EVERY', bad is None and n >= 2, W, sec.qual,
+           'one entry per registered default (%d element paths)' % n,
+           'every default of every section is formatted and yielded exactly '
+           'once, whatever its deprecation status' if bad is None and n >= 2
+           else 'a registered default can be left out of the %s sample '
+           '(path: %s): the sample no longer states every default' % (
+               bad[1] if bad else '?',
+               bad[0].cond_text()[-250:] if bad else 'no element path'))
+    # the sample writer emits every section it is given
+    inner = prog.func(GEN + '._generate_sample')
+    ti = Table(prog, inner)
+    okw = False
+    for p in ti.paths:
+        loops = [c for c in p.conds if c.kind == 'loop' and c.pol]
+        if not loops:
+            continue
+        app = any(e.kind == 'call' and method_call(e.node, 'append')
+                  and isinstance(e.node.args[0], ast.Name)
+                  and e.node.args[0].id.startswith('SYM_e')
+                  and e.nconds <= len(loops) + 3 for e in p.events)
+        conds_in_loop = [c for c in p.conds if c.kind == 'test' and any(
+            isinstance(x, ast.Name) and x.id.startswith('SYM_e')
+            for x in ast.walk(c.expr))]
+        if app and not conds_in_loop:
+            okw = True
+        if conds_in_loop:
+            okw = False
+            break
+    ctx.ob('C17.EVERY', okw, ctx.where(inner.module, inner.node),
+           inner.qual, 'sections collected unconditionally',
+           'every formatted section is written to the sample' if okw else
+           'the sample writer filters the formatted sections')
+
+
 def check(ctx):
     ctx.use(GEN)
     ctx.explain('C17: the help-text formatter is proved to return only '
@@ -455,3 +527,4 @@ def check(ctx):
     check_lines(ctx, fmt, sanitizer, ok)
     check_rule_line(ctx, fmt)
     check_json(ctx)
+    check_every(ctx)
